@@ -28,6 +28,7 @@ type Prog struct {
 	ByPath  map[string]*packages.Package // all packages by import path
 	SSA     *ssa.Program
 	cg      *callgraph.Graph
+	chaG    *callgraph.Graph
 	allFns  map[*ssa.Function]bool
 	GOOS    string
 	GOARCH  string
@@ -107,9 +108,32 @@ func Load(repo string, overlay map[string][]byte, goos, goarch string) (*Prog, e
 func (p *Prog) CallGraph() *callgraph.Graph {
 	if p.cg == nil {
 		p.allFns = ssautil.AllFunctions(p.SSA)
-		p.cg = vta.CallGraph(p.allFns, cha.CallGraph(p.SSA))
+		p.chaG = cha.CallGraph(p.SSA)
+		p.cg = vta.CallGraph(p.allFns, p.chaG)
 	}
 	return p.cg
+}
+
+// ModuleIfaceCallees returns, for module function f, the module methods that class-hierarchy analysis gives for its
+// interface-method call sites. VTA resolves an interface call only with the types it sees flowing into it; the
+// parameters of library entry points (IDataContext, Resource, ValueNode ...) receive their dynamic types from callers
+// outside the analysed program, so for those sites every implementation inside the module is a possible callee.
+func (p *Prog) ModuleIfaceCallees(f *ssa.Function) []*ssa.Function {
+	p.CallGraph()
+	n := p.chaG.Nodes[f]
+	if n == nil {
+		return nil
+	}
+	var out []*ssa.Function
+	for _, e := range n.Out {
+		if e.Site == nil || !e.Site.Common().IsInvoke() {
+			continue
+		}
+		if g := e.Callee.Func; g != nil && fnInModule(g) {
+			out = append(out, g)
+		}
+	}
+	return out
 }
 
 func (p *Prog) Pkg(short string) *packages.Package { return p.ByPath[fullPkg(short)] }
